@@ -38,7 +38,10 @@ func c13Extras(variant int, withError bool) srcFile {
 	if withError {
 		// error texts that list several names: the order of the names is part of the text
 		switch variant % 10 {
-		case 8, 9:
+		case 9:
+			// several undefined globals as values of one map literal (values have no order of their own)
+			b.WriteString("{print ['kb': verif.NOPE_B, 'ka': verif.NOPE_A, 'kc': verif.NOPE_C]}\n")
+		case 8:
 			// an undefined global whose name is equally close to several defined ones (verif.COLOR_n, verif.SIZE_x)
 			b.WriteString("{verif.COLOR_3}{verif.SIZE_M}\n")
 		case 0:
@@ -46,7 +49,7 @@ func c13Extras(variant int, withError bool) srcFile {
 		case 1:
 			b.WriteString("{call .nosuch}{param p: ['zulu': 1, 'alpha': 2, 'mike': 3] /}{/call}\n")
 		case 2:
-			b.WriteString("{$undeclared}\n")
+			b.WriteString("{print ['kb': $undeclaredB, 'ka': $undeclaredA, 'kc': $undeclaredC, 'kd': [$undeclaredD]]}\n")
 		case 3:
 			b.WriteString("{call .need4}{param zulu: 1 /}{/call}\n") // four required params missing
 			extraTemplates = "/** @param hotel\n * @param alpha\n * @param zulu\n * @param mike\n * @param bravo */\n{template .need4}{$hotel}{$alpha}{$zulu}{$mike}{$bravo}{/template}\n"
@@ -67,6 +70,8 @@ func c13Extras(variant int, withError bool) srcFile {
 	b.WriteString("/** @param p\n * @param q */\n{template .need}{length(keys($p))}{$q}{/template}\n")
 	// a render that always fails, several lines into its template: the error names a file and a line
 	b.WriteString("/** */\n{template .fail}\nbefore\n{if true}\n  {print -'x'}\n{/if}\nafter\n{/template}\n")
+	// ... and one whose failing expressions are the values of a map literal
+	b.WriteString("/** */\n{template .failmap}\n{print ['kb': -'b', 'ka': -'a', 'kc': -'c', 'kd': 1]}\n{/template}\n")
 	b.WriteString(extraTemplates)
 	return srcFile{"extras.soy", b.String()}
 }
@@ -136,7 +141,7 @@ func c13Observe(out *bytes.Buffer, bnd *soy.Bundle, entry string, d map[string]r
 	out.WriteString(strings.Join(msgs, "\n") + "\n")
 	// rendered output (error text of render errors embeds stack traces: only success/failure is compared)
 	tofu := soyhtml.NewTofu(reg)
-	for _, e := range []string{entry, "ex.main", "chain.user.main", "ex.fail"} {
+	for _, e := range []string{entry, "ex.main", "chain.user.main", "ex.fail", "ex.failmap"} {
 		if _, ok := reg.Template(e); !ok {
 			continue
 		}
@@ -177,7 +182,7 @@ func c13Observe(out *bytes.Buffer, bnd *soy.Bundle, entry string, d map[string]r
 			fmt.Fprintf(out, "SECOND-USE-DIFFERS second JavaScript generation of %s: %s\n", sf.Name, again)
 		}
 	}
-	for _, e := range []string{entry, "ex.main", "chain.user.main", "ex.fail"} {
+	for _, e := range []string{entry, "ex.main", "chain.user.main", "ex.fail", "ex.failmap"} {
 		if _, ok := reg.Template(e); !ok {
 			continue
 		}
